@@ -28,6 +28,6 @@ Extraction "model.ml"
   uint_marshal_text uint_marshal_json u256_unmarshal_text u256_unmarshal_json
   bytes_marshal_text fixed_bytes_unmarshal big_unmarshal
   v_step v_init v_len h_alloc zero_addr
-  bool_backing_from_base bool_subview packed_set packed_val chunk_set_bit chunk_get_bit flat_decode_scoped ew_write_all_eager basic_encode basic_decode codec_sum dr_skip dynamic_bytes_unmarshal bytes_string
+  bool_backing_from_base bool_subview packed_set packed_val chunk_set_bit chunk_get_bit cw_write_all flat_decode_scoped ew_write_all_eager basic_encode basic_decode codec_sum dr_skip dynamic_bytes_unmarshal bytes_string
   run_reads ew_write_all one_shot view_deserialize_a foot perbyte flat_decode_a ffoot fperbyte fnew
   heap_init h_getter h_setter h_merkle h_abs hm_step hm_alloc h_cell.
